@@ -618,8 +618,29 @@ def rule_skip_conditions(chk, prog):
     (r.bad if bad else r.ok)("early return", fn.where(), bad or "")
 
 
+def rule_crossing_pass(chk, prog):
+    r = chk.rule("CROSSING-PASS-NOT-ON-OWN-OUTPUT", "Router::improveCrossings (active when crossingPenalty or fixedSharedPathPenalty is set) is greedy: it picks "
+                 "the connectors with most crossings from the routes as they are and routes them again, so its result depends on the routes it "
+                 "starts from.  rerouteAndCallbackConnectors may run it only when some route was recomputed in this transaction (or a setting "
+                 "changed): on the output of the previous transaction's pass it picks differently, and a transaction that changes nothing "
+                 "changes routes (replays/c06_crossing_penalty_null_transactions.cpp: two states alternate for ever)", floor=1)
+    fn = prog.fn("Avoid::Router::rerouteAndCallbackConnectors")
+    cs_ = [c for c in calls(fn) if c.get("cname") == "Avoid::Router::improveCrossings"]
+    if not cs_:
+        raise AnalysisBroken("rerouteAndCallbackConnectors no longer calls improveCrossings: rule out of date")
+    lists = {d.get("name") for d in fn.nodes() if d.get("k") == "VarDecl" and "ConnRefList" in d.get("t", "") and not d.get("parm")}
+    for c in cs_:
+        r.count()
+        ats = atoms(path_condition(fn, c, inline=False, early=True))
+        dep = [a for a in ats if any(n_ and n_ in a for n_ in lists) or "settings" in a.lower()]
+        (r.ok if dep else r.bad)("improveCrossings in rerouteAndCallbackConnectors", fn.loc(c), "" if dep else
+                                 "the crossing pass runs in every transaction, also on the routes it produced itself in the previous one "
+                                 "(condition: %s)" % (sorted(ats) or "none"))
+
+
 def run(chk):
     prog = chk.load()
+    chk.guard(rule_crossing_pass, chk, prog)
     chk.guard(rule_route_dist, chk, prog)
     from .c03 import rule_contains
     chk.guard(rule_contains, chk, prog)          # the incremental and the from-scratch producer of Router::contains agree (fresh router == history)
